@@ -370,6 +370,12 @@ struct TemplateCore {
                                 bool is_true{false};
                                 tag.Length = SizeT16(end_offset - tag.Offset);
 
+                                if ((end_offset - tag.Offset) > SizeT{0xFFFF}) {
+                                    // Too long for the 16-bit offsets and lengths of the tag: not an inline if.
+                                    storage->Drop(SizeT{1});
+                                    break;
+                                }
+
                                 do {
                                     while ((offset < end_offset) && (content[offset] == TagPatterns::SpaceChar)) {
                                         ++offset;
